@@ -297,7 +297,9 @@ def gen(src_dir: str) -> str:
         "From Coq Require Import ZArith Bool.",
         "Require Import DS.Model.PyTime.",
         "Open Scope Z_scope.",
-        f"(* source: {ast.unparse(guard.test)}   with   " + "; ".join(ast.unparse(st) for i, st in assigns if st.targets[0].id in needed) + " *)",
+        "(* source: " + (ast.unparse(guard.test) + "   with   "
+                         + "; ".join(ast.unparse(st) for i, st in assigns if st.targets[0].id in needed)
+                         ).replace("*)", "* )").replace("(*", "( *") + " *)",
         "Definition takeover_age (zone now : Z) (lm : pydt) (lease : Z) : option Z :=",
         f"  {age_txt}.",
         "Definition takeover_keeps (age lease : Z) : bool :=",
